@@ -87,7 +87,7 @@ class World:
             return s
         self.env = {'session_factory': mk}
         sopts = dict(encoding=None, window=W, max_pktsize=W // 2)
-        if prog == 'sftp':
+        if prog in ('sftp', 'sftp-cancel'):
             os.makedirs(SCRATCH, exist_ok=True)
             with open(os.path.join(SCRATCH, 'f'), 'wb') as f:
                 f.write(b'q' * 300)
@@ -152,6 +152,23 @@ class World:
         self.tasks['stat'] = self.loop.create_task(sftp.stat('f'))
         f = await sftp.open('f', 'rb')
         self.tasks['read'] = self.loop.create_task(f.read(300, 0))
+        self.tasks['stat2'] = self.loop.create_task(sftp.stat('nonexistent'))
+        await sftp.wait_closed()
+
+    async def prog_sftp_cancel(self, conn):
+        """an earlier request was abandoned by its caller (timeout / cancellation) and is still unanswered
+        when later requests are pending and the session ends"""
+        sftp = await conn.start_sftp_client()
+        f = await sftp.open('f', 'rb')
+        gone = self.loop.create_task(sftp.stat('f'))
+        await asyncio.sleep(0)
+        gone.cancel()
+        self.tasks['stat'] = self.loop.create_task(sftp.stat('f'))
+        self.tasks['read'] = self.loop.create_task(f.read(300, 0))
+        try:
+            await asyncio.wait_for(sftp.lstat('f'), 5)
+        except (asyncio.TimeoutError, asyncssh.Error, OSError):
+            pass
         self.tasks['stat2'] = self.loop.create_task(sftp.stat('nonexistent'))
         await sftp.wait_closed()
 
@@ -271,7 +288,7 @@ def run(cfg, chooser):
                 raise Livelock('schedule too long')
         # ---- oracle 1: connection still up, channel closed both ways -------
         c_up = pair.c._transport is not None and pair.s._transport is not None
-        single = prog not in ('two', 'sftp', 'rfwd', 'rfwd2')
+        single = prog not in ('two', 'sftp', 'sftp-cancel', 'rfwd', 'rfwd2')
         if c_up and single and closes['cs'] >= 1 and closes['sc'] >= 1:
             if pair.c._channels or pair.s._channels:
                 viol.append(('channel-registered-after-close',
@@ -355,7 +372,7 @@ def worker(job):
 
 
 def jobs(tier):
-    progs = ['exec', 'stream', 'run', 'sftp', 'rfwd', 'rfwd2']
+    progs = ['exec', 'stream', 'run', 'sftp', 'sftp-cancel', 'rfwd', 'rfwd2']
     if tier == 'thorough':
         progs.append('two')
     out = []
@@ -390,7 +407,7 @@ def main(tier, seed):
     js = jobs(tier)
     acc = core.pmap(worker, core.rotate(js, seed), chunksize=2)
     rule = ('client programs {exec via callback session, stream session with blocked drain/read, run, '
-            'sftp with outstanding requests, remote port forward listener, three concurrent remote forward requests '
+            'sftp with outstanding requests, sftp with a request abandoned by its caller before later ones, remote port forward listener, three concurrent remote forward requests '
             'against a slow server application} x server behaviours {echo, '
             'silent, reject exec, close instead of answering, exit at once with data pending, EOF only}; '
             'at every quiescent point the explorer may deliver either direction\'s next packet or inject '
